@@ -129,3 +129,24 @@ def ber_real_nr3():
     e = encoder.encode(univ.Real((123, 10, 11)))
     body = e[3:]
     return b'.' not in body.split(b'E')[0], 'BER encoding of Real((123, 10, 11)) has contents %r' % bytes(e[2:])
+
+
+def encode_instantiates_born_value_member():
+    """encoding a record whose mandatory member (itself a record with OPTIONAL members only) was never touched"""
+    from pyasn1.type import univ, namedtype
+    from pyasn1.codec.ber import encoder
+
+    class Inner(univ.Sequence):
+        componentType = namedtype.NamedTypes(namedtype.OptionalNamedType('x', univ.Integer()))
+
+    class Outer(univ.Sequence):
+        componentType = namedtype.NamedTypes(namedtype.NamedType('inner', Inner()),
+                                             namedtype.OptionalNamedType('y', univ.Integer()))
+    o = Outer()
+    before = o.isValue
+    try:
+        enc = encoder.encode(o)
+    except Exception as e:
+        return False, 'encode(Outer()) raised %s' % type(e).__name__
+    return (before, o.isValue) == (False, True), 'Outer().isValue is %s, encode() gives %s, afterwards isValue is %s' % (
+        before, enc.hex(), o.isValue)
